@@ -209,6 +209,20 @@ func (c *fctx) instrWrites(fn *ssa.Function, in ssa.Instruction, w *wsCtx, depth
 				w.add(c.elemKey(sl.Elem()), x, true)
 			}
 		}
+	case *ssa.Range:
+		if mt, ok := types.Unalias(x.X.Type()).Underlying().(*types.Map); ok {
+			k := "X:seen:" + typeKey(mt)
+			c.ensureRegion(k, "(Array Int (Array "+c.S.SortOf(mt.Key())+" Bool))")
+			w.full(k)
+		}
+	case *ssa.Next:
+		if r, ok := x.Iter.(*ssa.Range); ok {
+			if mt, ok := types.Unalias(r.X.Type()).Underlying().(*types.Map); ok {
+				k := "X:seen:" + typeKey(mt)
+				c.ensureRegion(k, "(Array Int (Array "+c.S.SortOf(mt.Key())+" Bool))")
+				w.full(k)
+			}
+		}
 	case *ssa.RunDefers:
 		for _, b := range fn.Blocks {
 			for _, i2 := range b.Instrs {
@@ -277,9 +291,13 @@ func (c *fctx) callWrites(fn *ssa.Function, cm *ssa.CallCommon, w *wsCtx, depth 
 			if mc, ok := cm.Value.(*ssa.MakeClosure); ok {
 				scanFn(mc.Fn.(*ssa.Function))
 			}
-			return
+			ct = c.P.Contracts["functype "+types.Unalias(cm.Value.Type()).String()]
+			if ct == nil {
+				return
+			}
+		} else {
+			ct = c.P.ContractFor(callee)
 		}
-		ct = c.P.ContractFor(callee)
 	}
 	if ct != nil && (callee == nil || !ct.Inline) {
 		w.full("alloc")
@@ -292,8 +310,10 @@ func (c *fctx) callWrites(fn *ssa.Function, cm *ssa.CallCommon, w *wsCtx, depth 
 			var sig *types.Signature
 			if callee != nil {
 				sig = callee.Signature
-			} else {
+			} else if cm.IsInvoke() {
 				sig = cm.Method.Type().(*types.Signature)
+			} else {
+				sig = cm.Signature()
 			}
 			pn, _ := contractNames(ct, callee, sig, cm.IsInvoke())
 			pt := c.paramTypes(callee, sig, cm.IsInvoke(), types.NewInterfaceType(nil, nil))
@@ -644,6 +664,9 @@ func (p *Prog) VerifyFunc(fn *ssa.Function) *FuncVC {
 	entry := st.clone()
 	for _, r := range ct.Requires {
 		c.assume(e.tr(r.E).t)
+	}
+	for _, d := range ct.Decr {
+		c.fnDecr0 = append(c.fnDecr0, c.define("fdecr0", "Int", e.tr(d).t))
 	}
 	// frame condition
 	c.setupAssigns(ct, e)
